@@ -140,7 +140,8 @@ def real_streams(bl, inputs):
             except bl.errors.ParsingError as e:
                 # only p_error's messages are verdicts of the engine; the tokenizer's own errors (unterminated quote, here-document) are not
                 verdict = 'REJ' if (e.message.startswith('unexpected token') or e.message == 'unexpected EOF') else 'OTHER'
-            except Exception: verdict = 'OTHER'
+            except NotImplementedError: verdict = 'OTHER'
+            except Exception as e: verdict = 'FOREIGN:' + type(e).__name__
             nested = [(modes.get(k), list(v)) for k, v in raw.items() if modes.get(k) in ('sub', 'top')]
             out.append((s, verdict, list(rec[order[0]]) if order else [], nested))
     finally:
@@ -270,7 +271,22 @@ def run(ctx):
                 for b in ['b)', 'b) c', 'b; c) d', 'b ) &&', 'a )', 'a;)', '(a))', 'a | b)', 'b)c', 'a &)', 'a; b', 'a && b', '(a)', 'a;', 'fi', 'a; }', 'do a']]
         if ctx.get('replay'): ins = [json.load(open(ctx['replay']))['input']]
         # (here-documents are read by the tokenizer from the text; the token-level engine has none)
-        streams = [x for x in real_streams(bl, [s for s in ins if '<<' not in s]) if x[1] in ('ACC', 'BLANK', 'REJ') and all(n in tid for n in x[2]) and not any(n.startswith('LESS_LESS') for n in x[2] if n != 'LESS_LESS_LESS')]
+        allstreams = real_streams(bl, [s for s in ins if '<<' not in s])
+        # "every accepted sentence is reduced without an internal failure": an exception of another type than ParsingError / NotImplementedError on an input the
+        # MODEL accepts (so its token sequence is a sentence, by C09_sound, and the unfailing run exists) is an internal failure of the implementation
+        foreign = [x for x in allstreams if x[1].startswith('FOREIGN:')]
+        if foreign:
+            for x, rep in zip(foreign, runner.model_batch([runner.req_line('single', {}, x[0]) for x in foreign])):
+                classes['real-stream:foreign'] += 1
+                if rep.startswith('ONE '):
+                    sig = 'internal-failure-on-sentence:' + x[1].split(':', 1)[1]
+                    sig_count[sig] += 1
+                    fid = common.match_finding(findings, sig, x[0])
+                    if fid: finding_hits.setdefault(fid, x[0][:80])
+                    elif len(violations) < 25 and not any(v['signature'] == sig for v in violations):
+                        violations.append(dict(property=prop, input=x[0], tokens=x[2], signature=sig, impl=x[1], model_engine=rep[:200],
+                                               how='parsesingle raised an exception that is neither ParsingError nor NotImplementedError on an input whose token sequence the Lean model reduces to a tree'))
+        streams = [x for x in allstreams if x[1] in ('ACC', 'BLANK', 'REJ') and all(n in tid for n in x[2]) and not any(n.startswith('LESS_LESS') for n in x[2] if n != 'LESS_LESS_LESS')]
         rl = ['lr\ttop\t%s' % '.'.join(str(tid[n]) for n in names) for _, _, names, _ in streams]
         rr = []
         for k in range(0, len(rl), 20000): rr += runner.model_batch(rl[k:k + 20000])
